@@ -194,6 +194,8 @@ fn create_buffer(size: usize) -> Box<[u8]> {
 
 #[inline(never)]
 pub extern "sysv64" fn memory_read_byte(areas: *const MemoryAreas, addr: u16) -> u8 {
+  #[cfg(gb_dynarec_verif)]
+  crate::verif::bus_event(crate::verif::BUS_READ, addr, 0);
   let memory_areas: &MemoryAreas = unsafe { &*areas };
   if addr < 0x4000 { // ROM Bank 0
     return memory_areas.rom[addr as usize];
@@ -244,6 +246,8 @@ pub extern "sysv64" fn memory_read_byte(areas: *const MemoryAreas, addr: u16) ->
 
 #[inline(never)]
 pub extern "sysv64" fn memory_write_byte(areas: *mut MemoryAreas, addr: u16, value: u8) {
+  #[cfg(gb_dynarec_verif)]
+  crate::verif::bus_event(crate::verif::BUS_WRITE, addr, value);
   let memory_areas: &mut MemoryAreas = unsafe { &mut *areas };
   if addr < 0x8000 { // ROM Banks
     memory_areas.cart_state.write_rom(addr, value);
@@ -325,3 +329,11 @@ pub fn can_dynarec(addr: usize) -> bool {
   addr < 0x8000
 }
 
+
+#[cfg(gb_dynarec_verif)]
+impl MemoryAreas {
+  /// Source address and next offset of the OAM DMA in flight, if any
+  pub fn verif_dma(&self) -> Option<(usize, u8)> {
+    self.oam_dma.map(|dma| (dma.source, dma.current_offset))
+  }
+}
